@@ -19,6 +19,8 @@ import (
 	"encoding/binary"
 	"fmt"
 	"os"
+	"reflect"
+	"sort"
 	"strings"
 	"testing"
 	"time"
@@ -40,8 +42,6 @@ import (
 	"github.com/relab/hotstuff/security/crypto"
 	"github.com/relab/hotstuff/wiring"
 )
-
-const c03N = 4
 
 // ---------------------------------------------------------------- recording wrappers
 
@@ -79,6 +79,46 @@ func (s *c03Sender) Vote(id hotstuff.ID, pc hotstuff.PartialCert) error {
 
 var _ core.Sender = (*c03Sender)(nil)
 
+// c03Comm wraps the replica's communication module.  Like Kauri's Aggregate / Disseminate when
+// Sender.Sub refuses the children, it can fail before anything was handed to the network.
+type c03Comm struct {
+	inner comm.Communication
+	w     *c03World
+}
+
+func (c *c03Comm) fail() bool {
+	if c.w.failComm {
+		if c.w.cur != nil {
+			c.w.cur.sendFailed++
+		}
+		return true
+	}
+	return false
+}
+
+func (c *c03Comm) Aggregate(p *hotstuff.ProposeMsg, pc hotstuff.PartialCert) error {
+	if c.fail() {
+		return fmt.Errorf("unable to send the vote: sub-configuration refused")
+	}
+	return c.inner.Aggregate(p, pc)
+}
+
+func (c *c03Comm) Disseminate(p *hotstuff.ProposeMsg, pc hotstuff.PartialCert) error {
+	if c.fail() {
+		return fmt.Errorf("unable to send the proposal to children: sub-configuration refused")
+	}
+	return c.inner.Disseminate(p, pc)
+}
+
+// c03Table is a leader rotation over whatever ids are members right now (sorted), for id sets the
+// round-robin rotation (ids 1..n) cannot serve.  Which replica leads a view is an input of C03.
+type c03Table struct{ w *c03World }
+
+func (r c03Table) GetLeader(view hotstuff.View) hotstuff.ID {
+	m := r.w.members
+	return m[uint64(view)%uint64(len(m))]
+}
+
 type c03RuleCall struct {
 	hash    hotstuff.Hash
 	verdict bool
@@ -100,6 +140,7 @@ func (r *c03Rules) CommitRule(b *hotstuff.Block) *hotstuff.Block { return r.inne
 func (r *c03Rules) ChainLength() int                             { return r.inner.ChainLength() }
 func (r *c03Rules) ProposeRule(view hotstuff.View, si hotstuff.SyncInfo, cmd *clientpb.Batch) (hotstuff.ProposeMsg, bool) {
 	p, ok := r.inner.ProposeRule(view, si, cmd)
+	r.w.proposeCalls++
 	if ok && p.Block != nil {
 		r.w.known[p.Block.Hash()] = p.Block
 		if r.w.cur != nil {
@@ -114,9 +155,16 @@ func (r *c03Rules) ProposeRule(view hotstuff.View, si hotstuff.SyncInfo, cmd *cl
 
 type c03QCInfo struct {
 	ok        bool // ground truth: a quorum of distinct replicas signed exactly this block, and the block can be obtained
+	nsig      int  // distinct members that signed exactly the named block
 	haveBlock bool
 	blockView hotstuff.View
 	kind      string
+}
+
+type c03AggInfo struct {
+	nsig int
+	qc   hotstuff.QuorumCert
+	same bool
 }
 
 type c03SI struct {
@@ -134,71 +182,144 @@ type c03Inv struct {
 	rules      []c03RuleCall
 	owns       []*hotstuff.ProposeMsg
 	viewAfter  hotstuff.View
-	sendFailed int // vote sends that returned an error during this invocation
+	sendFailed int           // vote sends that returned an error during this invocation
+	quorum     int           // RuntimeConfig.QuorumSize() when the invocation started
+	leaders    [][2]uint64   // the rotation's answers when the invocation started: (view, leader)
+	lvAfter    hotstuff.View // Voter.lastVotedView after the invocation
 }
 
 type c03World struct {
-	t         testing.TB
-	ruleName  string
-	cryptoNm  string
-	agg       bool
-	self      hotstuff.ID
-	cfg       *core.RuntimeConfig
-	el        *eventloop.EventLoop
-	syn       *Synchronizer
-	states    *protocol.ViewStates
-	cmds      *clientpb.CommandCache
-	others    []*cert.Authority
-	otherID   hotstuff.ID
-	pool      *blockchain.Blockchain
-	blocks    []*hotstuff.Block
-	known     map[hotstuff.Hash]*hotstuff.Block
-	qcs       map[string]c03QCInfo
-	qcMemo    map[string]hotstuff.QuorumCert
-	wf        map[hotstuff.Hash]bool          // blocks an honest replica running the repaired Verify could vote for
-	certIn    map[hotstuff.View]hotstuff.Hash // the one block per view that got a quorum
-	aggs      map[*hotstuff.AggregateQC]bool  // aggregate part of VerifyAnyQC succeeds (ground truth)
-	intern    map[hotstuff.Hash]uint64
-	invs      []*c03Inv
-	cur       *c03Inv
-	pending   []c03SI
-	stray     [][]byte
-	seq       uint64
-	nonce     uint64
-	lastMsg   *hotstuff.ProposeMsg
-	notes     []string
-	failVotes bool // core.Sender.Vote returns an error
+	t            testing.TB
+	ruleName     string
+	cryptoNm     string
+	agg          bool
+	self         hotstuff.ID
+	cfg          *core.RuntimeConfig
+	el           *eventloop.EventLoop
+	syn          *Synchronizer
+	states       *protocol.ViewStates
+	cmds         *clientpb.CommandCache
+	others       []*cert.Authority
+	otherID      hotstuff.ID
+	pool         *blockchain.Blockchain
+	blocks       []*hotstuff.Block
+	known        map[hotstuff.Hash]*hotstuff.Block
+	qcs          map[string]c03QCInfo
+	qcMemo       map[string]hotstuff.QuorumCert
+	wf           map[hotstuff.Hash]bool          // blocks an honest replica running the repaired Verify could vote for
+	certIn       map[hotstuff.View]hotstuff.Hash // the one block per view that got a quorum
+	aggs         map[*hotstuff.AggregateQC]c03AggInfo
+	intern       map[hotstuff.Hash]uint64
+	invs         []*c03Inv
+	cur          *c03Inv
+	pending      []c03SI
+	stray        [][]byte
+	seq          uint64
+	nonce        uint64
+	lastMsg      *hotstuff.ProposeMsg
+	notes        []string
+	failVotes    bool // core.Sender.Vote returns an error
+	failComm     bool // Aggregate / Disseminate return an error before sending anything
+	conf         c03Cfg
+	members      []hotstuff.ID // ids in the replica's configuration, sorted
+	rot          leaderrotation.LeaderRotation
+	joiner       *testutil.Essentials // a replica that is added to the configuration later
+	proposeCalls int
+	oldMembers   []hotstuff.ID // the membership before the joiner was added
 }
 
-func c03Leader(view hotstuff.View) hotstuff.ID { return hotstuff.ID(uint64(view)%c03N + 1) }
+// c03Cfg selects everything that is configuration: ruleset, timeout rule (aggregate QCs or not),
+// signature scheme, the ids of the replicas, which of them is the replica under test, the leader
+// rotation, and whether a further replica stands by to join.
+type c03Cfg struct {
+	Rule     string        `json:"ruleset"`
+	Agg      bool          `json:"aggregate_qc"`
+	Crypto   string        `json:"crypto"`
+	IDs      []hotstuff.ID `json:"ids"`
+	SelfIdx  int           `json:"self_index"`
+	Rotation string        `json:"rotation"` // round-robin | fixed | table
+	Joiner   hotstuff.ID   `json:"joiner,omitempty"`
+}
 
-func c03NewWorld(t testing.TB, ruleName, cryptoName string, self hotstuff.ID) *c03World {
-	agg := ruleName == rules.NameFastHotStuff
+func (c c03Cfg) self() hotstuff.ID { return c.IDs[c.SelfIdx] }
+func (c c03Cfg) String() string {
+	return fmt.Sprintf("%s/agg=%t/%s/ids=%v/self=%d/%s/join=%d", c.Rule, c.Agg, c.Crypto, c.IDs, c.self(), c.Rotation, c.Joiner)
+}
+
+func c03Std(rule string, self hotstuff.ID) c03Cfg {
+	return c03Cfg{Rule: rule, Agg: rule == rules.NameFastHotStuff, Crypto: crypto.NameECDSA,
+		IDs: []hotstuff.ID{1, 2, 3, 4}, SelfIdx: int(self) - 1, Rotation: "round-robin"}
+}
+
+func (w *c03World) leaderOf(view hotstuff.View) hotstuff.ID { return w.rot.GetLeader(view) }
+func (w *c03World) quorumNow() int                          { return w.cfg.QuorumSize() }
+
+// c03NewSet is testutil.NewEssentialsSet for arbitrary replica ids.
+func c03NewSet(t testing.TB, ids []hotstuff.ID, cryptoName string, opts ...core.RuntimeOption) []*testutil.Essentials {
+	var set []*testutil.Essentials
+	var infos []hotstuff.ReplicaInfo
+	for _, id := range ids {
+		e := testutil.WireUpEssentials(t, id, cryptoName, opts...)
+		infos = append(infos, hotstuff.ReplicaInfo{ID: id, PubKey: e.RuntimeCfg().PrivateKey().Public(), Metadata: e.RuntimeCfg().ConnectionMetadata()})
+		set = append(set, e)
+	}
+	for _, e := range set {
+		for i := range infos {
+			e.RuntimeCfg().AddReplica(&infos[i])
+		}
+		for _, o := range set {
+			if o != e {
+				e.MockSender().AddBlockchain(o.Blockchain())
+			}
+		}
+	}
+	return set
+}
+
+func c03NewWorld(t testing.TB, conf c03Cfg) *c03World {
+	ruleName, cryptoName, self, agg := conf.Rule, conf.Crypto, conf.self(), conf.Agg
 	var opts []core.RuntimeOption
 	if agg {
 		opts = append(opts, core.WithAggregateQC())
 	}
-	set := testutil.NewEssentialsSet(t, c03N, cryptoName, opts...)
-	w := &c03World{t: t, ruleName: ruleName, cryptoNm: cryptoName, agg: agg, self: self,
+	all := append([]hotstuff.ID{}, conf.IDs...)
+	if conf.Joiner != 0 {
+		all = append(all, conf.Joiner)
+	}
+	full := c03NewSet(t, all, cryptoName, opts...)
+	w := &c03World{t: t, ruleName: ruleName, cryptoNm: cryptoName, agg: agg, self: self, conf: conf,
 		known: map[hotstuff.Hash]*hotstuff.Block{}, qcs: map[string]c03QCInfo{}, qcMemo: map[string]hotstuff.QuorumCert{},
 		wf: map[hotstuff.Hash]bool{}, certIn: map[hotstuff.View]hotstuff.Hash{},
-		aggs: map[*hotstuff.AggregateQC]bool{}, intern: map[hotstuff.Hash]uint64{}}
+		aggs: map[*hotstuff.AggregateQC]c03AggInfo{}, intern: map[hotstuff.Hash]uint64{}}
 	gen := hotstuff.GetGenesis()
 	w.known[gen.Hash()] = gen
 	w.intern[gen.Hash()] = 0
-	for i, e := range set {
-		if hotstuff.ID(i+1) != self {
+	w.members = append([]hotstuff.ID{}, conf.IDs...)
+	sort.Slice(w.members, func(i, j int) bool { return w.members[i] < w.members[j] })
+	for i, e := range full[:len(conf.IDs)] {
+		if conf.IDs[i] != self {
 			w.others = append(w.others, e.Authority())
 			if w.pool == nil {
 				w.pool = e.Blockchain()
-				w.otherID = hotstuff.ID(i + 1)
+				w.otherID = conf.IDs[i]
 			}
 		}
 	}
-	sub := set[int(self)-1]
-	w.cfg, w.el = sub.RuntimeCfg(), sub.EventLoop()
-	logger := sub.Logger()
-	var sender core.Sender = &c03Sender{MockSender: sub.MockSender(), w: w}
+	// the replica under test gets a configuration of its own that does not know the joiner yet
+	subKeyHolder := full[conf.SelfIdx]
+	depsCore := wiring.NewCore(self, "c03-", subKeyHolder.RuntimeCfg().PrivateKey(), append([]core.RuntimeOption{core.WithSyncVerification()}, opts...)...)
+	w.cfg, w.el = depsCore.RuntimeCfg(), depsCore.EventLoop()
+	for _, e := range full[:len(conf.IDs)] {
+		c := e.RuntimeCfg()
+		w.cfg.AddReplica(&hotstuff.ReplicaInfo{ID: c.ID(), PubKey: c.PrivateKey().Public(), Metadata: c.ConnectionMetadata()})
+	}
+	if conf.Joiner != 0 {
+		w.joiner = full[len(conf.IDs)]
+	}
+	logger := depsCore.Logger()
+	mock := testutil.NewMockSender(self)
+	mock.AddBlockchain(w.pool)
+	var sender core.Sender = &c03Sender{MockSender: mock, w: w}
 	base, err := crypto.New(w.cfg, cryptoName)
 	if err != nil {
 		t.Fatal(err)
@@ -221,11 +342,22 @@ func c03NewWorld(t testing.TB, ruleName, cryptoName string, self hotstuff.ID) *c
 		t.Fatalf("unknown ruleset %s", ruleName)
 	}
 	rl := &c03Rules{inner: inner, w: w}
-	leader := leaderrotation.NewRoundRobin(w.cfg)
+	var leader leaderrotation.LeaderRotation
+	switch conf.Rotation {
+	case "round-robin": // the real rotation; needs ids 1..n
+		leader = leaderrotation.NewRoundRobin(w.cfg)
+	case "fixed":
+		leader = leaderrotation.NewFixed(w.otherID)
+	case "table":
+		leader = c03Table{w}
+	default:
+		t.Fatalf("unknown rotation %s", conf.Rotation)
+	}
+	w.rot = leader
 	w.cmds = clientpb.NewCommandCache(1)
 	vm := votingmachine.New(logger, w.el, w.cfg, bc, auth, w.states)
 	cons := wiring.NewConsensus(w.el, logger, w.cfg, bc, auth, w.cmds, rl, leader, w.states,
-		comm.NewClique(w.cfg, vm, leader, sender))
+		&c03Comm{inner: comm.NewClique(w.cfg, vm, leader, sender), w: w})
 	// observers first: prioritised handlers run before the synchronizer's own handlers
 	eventloop.Register(w.el, func(p hotstuff.ProposeMsg) { w.begin(&c03Inv{kind: 0, prop: p}) }, eventloop.Prioritize())
 	eventloop.Register(w.el, func(e hotstuff.TimeoutEvent) {
@@ -248,8 +380,31 @@ func c03NewWorld(t testing.TB, ruleName, cryptoName string, self hotstuff.ID) *c
 	return w
 }
 
+// leaderAt: the rotation's answer for view v recorded when the invocation started (0 = not asked).
+func (inv *c03Inv) leaderAt(v uint64) uint64 {
+	for _, e := range inv.leaders {
+		if e[0] == v {
+			return e[1]
+		}
+	}
+	return 0
+}
+
+func (w *c03World) lastVoted() hotstuff.View {
+	return hotstuff.View(reflect.ValueOf(w.syn.voter).Elem().FieldByName("lastVotedView").Uint())
+}
+
 func (w *c03World) begin(inv *c03Inv) {
 	w.end()
+	inv.quorum = w.quorumNow()
+	cur := w.states.View()
+	views := []hotstuff.View{cur + 1, cur + 2}
+	if inv.kind == 0 {
+		views = append([]hotstuff.View{inv.prop.Block.View()}, views...)
+	}
+	for _, v := range views {
+		inv.leaders = append(inv.leaders, [2]uint64{uint64(v), uint64(w.leaderOf(v))})
+	}
 	w.cur = inv
 	w.invs = append(w.invs, inv)
 }
@@ -257,6 +412,7 @@ func (w *c03World) begin(inv *c03Inv) {
 func (w *c03World) end() {
 	if w.cur != nil {
 		w.cur.viewAfter = w.states.View()
+		w.cur.lvAfter = w.lastVoted()
 		w.cur = nil
 	}
 }
@@ -297,13 +453,7 @@ func (w *c03World) deliver(ev any) any {
 }
 
 // cmdBacklog keeps a rough count of unconsumed commands (every own proposal consumes one).
-func (w *c03World) cmdBacklog() int {
-	used := 0
-	for _, inv := range w.invs {
-		used += len(inv.owns)
-	}
-	return int(w.seq) - used
-}
+func (w *c03World) cmdBacklog() int { return int(w.seq) - w.proposeCalls }
 
 func (w *c03World) id(h hotstuff.Hash) uint64 {
 	if x, ok := w.intern[h]; ok {
@@ -357,8 +507,22 @@ func (w *c03World) available(b *hotstuff.Block) bool {
 	return ok
 }
 
+// nsigs translates "quorum" (q), "one short of a quorum" (q-1) and absolute small numbers.
+func (w *c03World) nsigs(k int) int {
+	switch k {
+	case 0, 3:
+		return w.quorumNow()
+	case 2:
+		return w.quorumNow() - 1
+	}
+	return k
+}
+
 func (w *c03World) sigs(msg []byte, k int) hotstuff.QuorumSignature {
 	var ss []hotstuff.QuorumSignature
+	if k > len(w.others) {
+		w.t.Fatalf("%d signers wanted, the adversary has %d keys", k, len(w.others))
+	}
 	for i := 0; i < k && i < len(w.others); i++ {
 		s, err := w.others[i].Sign(msg)
 		if err != nil {
@@ -379,7 +543,8 @@ func (w *c03World) sigs(msg []byte, k int) hotstuff.QuorumSignature {
 // makeQC returns a certificate naming target; kind: genuine | subquorum | forged.
 func (w *c03World) makeQC(target *hotstuff.Block, kind string) hotstuff.QuorumCert {
 	gen := hotstuff.GetGenesis()
-	key := kind + "/" + string(target.Hash().String())
+	q := w.quorumNow()
+	key := fmt.Sprintf("%s/%d/%s", kind, q, target.Hash().String())
 	if qc, ok := w.qcMemo[key]; ok {
 		return qc
 	}
@@ -389,18 +554,26 @@ func (w *c03World) makeQC(target *hotstuff.Block, kind string) hotstuff.QuorumCe
 	case target.Hash() == gen.Hash():
 		// the certificate of the genesis block needs no signatures
 		qc = hotstuff.NewQuorumCert(nil, 0, gen.Hash())
-		info.ok = true
+		info.kind = "genesis"
 	case kind == "genuine":
-		qc = hotstuff.NewQuorumCert(w.sigs(target.ToBytes(), 3), target.View(), target.Hash())
-		info.ok = info.haveBlock
+		qc = hotstuff.NewQuorumCert(w.sigs(target.ToBytes(), q), target.View(), target.Hash())
+		info.nsig = q
 		if _, taken := w.certIn[target.View()]; !taken {
 			w.certIn[target.View()] = target.Hash()
 		}
 	case kind == "subquorum":
-		qc = hotstuff.NewQuorumCert(w.sigs(target.ToBytes(), 2), target.View(), target.Hash())
+		qc = hotstuff.NewQuorumCert(w.sigs(target.ToBytes(), q-1), target.View(), target.Hash())
+		info.nsig = q - 1
+	case kind == "relabelled":
+		// the view, block hash and signature bytes of the genuine certificate, but one of the
+		// signatures is attributed to a replica that never signed (QuorumCert.Equals cannot tell
+		// the twins apart; verification can)
+		g := w.makeQC(target, "genuine")
+		qc = hotstuff.NewQuorumCert(w.relabel(g.Signature()), g.View(), g.BlockHash())
+		info.nsig = q - 1
 	case kind == "forged":
 		// three real signatures, but over something else than the block named by the certificate
-		qc = hotstuff.NewQuorumCert(w.sigs(append(target.ToBytes(), 1), 3), target.View(), target.Hash())
+		qc = hotstuff.NewQuorumCert(w.sigs(append(target.ToBytes(), 1), q), target.View(), target.Hash())
 	default:
 		w.t.Fatalf("qc kind %q", kind)
 	}
@@ -409,19 +582,60 @@ func (w *c03World) makeQC(target *hotstuff.Block, kind string) hotstuff.QuorumCe
 	return qc
 }
 
-func (w *c03World) qcInfo(qc hotstuff.QuorumCert) (c03QCInfo, bool) {
+// relabel re-attributes the last signature of a multi-signature to the replica under test.
+func (w *c03World) relabel(sig hotstuff.QuorumSignature) hotstuff.QuorumSignature {
+	switch ms := sig.(type) {
+	case crypto.Multi[*crypto.ECDSASignature]:
+		out := make(crypto.Multi[*crypto.ECDSASignature], 0, len(ms))
+		for i, x := range ms {
+			id := x.Signer()
+			if i == len(ms)-1 {
+				id = w.self
+			}
+			out = append(out, crypto.RestoreECDSASignature(x.ToBytes(), id))
+		}
+		return out
+	case crypto.Multi[*crypto.EDDSASignature]:
+		out := make(crypto.Multi[*crypto.EDDSASignature], 0, len(ms))
+		for i, x := range ms {
+			id := x.Signer()
+			if i == len(ms)-1 {
+				id = w.self
+			}
+			out = append(out, crypto.RestoreEDDSASignature(x.ToBytes(), id))
+		}
+		return out
+	}
+	w.t.Fatalf("cannot relabel a %T", sig)
+	return nil
+}
+
+// qcInfo evaluates the ground truth of a certificate for a replica whose quorum size is q right
+// now: the genesis certificate is valid by definition; otherwise at least q distinct members
+// signed exactly the named block and the block can be obtained.
+func (w *c03World) qcInfoAt(qc hotstuff.QuorumCert, q int) (c03QCInfo, bool) {
 	if qc.BlockHash() == hotstuff.GetGenesis().Hash() && qc.Signature() == nil && qc.View() == 0 {
 		return c03QCInfo{ok: true, haveBlock: true, blockView: 0, kind: "genesis"}, true
 	}
 	info, ok := w.qcs[string(qc.ToBytes())]
-	if ok && !info.haveBlock {
+	if !ok {
+		return info, false
+	}
+	if !info.haveBlock {
 		// the block may have been published since the certificate was made
 		if b, k := w.known[qc.BlockHash()]; k && w.available(b) {
 			info.haveBlock = true
-			info.ok = info.kind == "genuine"
 		}
 	}
-	return info, ok
+	// nsig counts signatures over exactly the named block (0 for forged ones); the label in
+	// info.kind plays no role (deterministic schemes make a quorum-1 certificate after the growth
+	// byte-identical to a quorum certificate made before it)
+	info.ok = info.kind == "genesis" || (info.nsig >= q && info.haveBlock)
+	return info, true
+}
+
+func (w *c03World) qcInfo(qc hotstuff.QuorumCert) (c03QCInfo, bool) {
+	return w.qcInfoAt(qc, w.quorumNow())
 }
 
 func (w *c03World) makeTC(view hotstuff.View, k int) hotstuff.TimeoutCert {
@@ -453,12 +667,17 @@ type c03Stim struct {
 	Proposer string `json:"proposer,omitempty"`       // "" (= sender) | other
 	K        int    `json:"signers,omitempty"`        // tc: number of signers (3 = quorum)
 	FailSend bool   `json:"fail_vote_send,omitempty"` // core.Sender.Vote fails while this stimulus is handled
+	FailComm bool   `json:"fail_comm,omitempty"`      // Aggregate / Disseminate fail before sending anything
 }
 
 func (s c03Stim) String() string {
 	if s.FailSend {
 		s.FailSend = false
 		return s.String() + "!sendfails"
+	}
+	if s.FailComm {
+		s.FailComm = false
+		return s.String() + "!commfails"
 	}
 	switch s.Kind {
 	case "propose":
@@ -481,8 +700,8 @@ func c03ViewAt(cur hotstuff.View, off int) hotstuff.View {
 }
 
 func (w *c03World) apply(s c03Stim) any {
-	w.failVotes = s.FailSend
-	defer func() { w.failVotes = false }()
+	w.failVotes, w.failComm = s.FailSend, s.FailComm
+	defer func() { w.failVotes, w.failComm = false, false }()
 	cur := w.states.View()
 	switch s.Kind {
 	case "propose":
@@ -498,13 +717,24 @@ func (w *c03World) apply(s c03Stim) any {
 		return w.deliver(hotstuff.TimeoutEvent{View: c03ViewAt(cur, s.ViewOff)})
 	case "tc":
 		view := c03ViewAt(cur, s.ViewOff)
-		k := s.K
-		if k == 0 {
-			k = 3
-		}
+		k := w.nsigs(s.K)
 		tc := w.makeTC(view, k)
-		w.pending = append(w.pending, c03SI{ok: k >= 3 || view == 0, view: view, desc: fmt.Sprintf("TC(view %d, %d signers)", view, k)})
+		w.pending = append(w.pending, c03SI{ok: k >= w.quorumNow() || view == 0, view: view, desc: fmt.Sprintf("TC(view %d, %d signers)", view, k)})
 		return w.deliver(hotstuff.NewViewMsg{ID: w.otherID, SyncInfo: hotstuff.NewSyncInfoWith(tc), FromNetwork: true})
+	case "grow":
+		// the stand-by replica joins: the replica's configuration learns its id and key after the
+		// voter, the synchronizer and the leader rotation were created
+		if w.joiner == nil {
+			return nil
+		}
+		c := w.joiner.RuntimeCfg()
+		w.cfg.AddReplica(&hotstuff.ReplicaInfo{ID: c.ID(), PubKey: c.PrivateKey().Public(), Metadata: c.ConnectionMetadata()})
+		w.oldMembers = append([]hotstuff.ID{}, w.members...)
+		w.members = append(w.members, c.ID())
+		sort.Slice(w.members, func(i, j int) bool { return w.members[i] < w.members[j] })
+		w.others = append(w.others, w.joiner.Authority())
+		w.joiner = nil
+		return nil
 	case "qc":
 		// a new-view message carrying a certificate for a (new) block of view cur+off
 		view := c03ViewAt(cur, s.ViewOff)
@@ -512,7 +742,7 @@ func (w *c03World) apply(s c03Stim) any {
 		if view <= t.View() {
 			view = t.View() + 1
 		}
-		b := w.newBlock(t.Hash(), w.makeQC(t, "genuine"), view, c03Leader(view))
+		b := w.newBlock(t.Hash(), w.makeQC(t, "genuine"), view, w.leaderOf(view))
 		w.publish(b)
 		kind := s.QCKind
 		if kind == "" {
@@ -541,7 +771,7 @@ func (w *c03World) craft(s c03Stim, cur hotstuff.View) hotstuff.ProposeMsg {
 	if s.Abs {
 		view = hotstuff.View(s.AbsView)
 	}
-	if !s.Abs && c03Leader(view) == w.self {
+	for i := 0; !s.Abs && w.leaderOf(view) == w.self && i < 2*len(w.members); i++ {
 		view++ // nobody else can send in the replica's own name
 	}
 	tip := w.tip()
@@ -567,7 +797,7 @@ func (w *c03World) craft(s c03Stim, cur hotstuff.View) hotstuff.ProposeMsg {
 			if nv < view { // wrap-around
 				nv = view
 			}
-			target = w.newBlock(tip.Hash(), w.makeQC(tip, "genuine"), nv, c03Leader(nv))
+			target = w.newBlock(tip.Hash(), w.makeQC(tip, "genuine"), nv, w.leaderOf(nv))
 			w.publish(target)
 		}
 	default:
@@ -583,7 +813,7 @@ func (w *c03World) craft(s c03Stim, cur hotstuff.View) hotstuff.ProposeMsg {
 			}
 			uv++
 		}
-		u := w.newBlock(target.Hash(), w.makeQC(target, "genuine"), uv, c03Leader(uv))
+		u := w.newBlock(target.Hash(), w.makeQC(target, "genuine"), uv, w.leaderOf(uv))
 		qc = w.makeQC(u, "genuine")
 	} else {
 		qc = w.makeQC(target, s.QCKind)
@@ -601,7 +831,7 @@ func (w *c03World) craft(s c03Stim, cur hotstuff.View) hotstuff.ProposeMsg {
 			if qc.BlockHash() != gen.Hash() {
 				o = gen
 			} else {
-				o = w.newBlock(gen.Hash(), w.makeQC(gen, "genuine"), 1, c03Leader(1))
+				o = w.newBlock(gen.Hash(), w.makeQC(gen, "genuine"), 1, w.leaderOf(1))
 				w.publish(o)
 			}
 		}
@@ -610,19 +840,33 @@ func (w *c03World) craft(s c03Stim, cur hotstuff.View) hotstuff.ProposeMsg {
 		w.nonce++
 		parent = sha256.Sum256([]byte(fmt.Sprintf("nowhere-%d", w.nonce)))
 	}
-	sender := c03Leader(view)
+	sender := w.leaderOf(view)
+	if s.Sender == "stale-leader" && len(w.oldMembers) > 0 {
+		// who led this view before the membership grew
+		switch w.conf.Rotation {
+		case "round-robin":
+			sender = hotstuff.ID(uint64(view)%uint64(len(w.oldMembers)) + 1)
+		case "table":
+			sender = w.oldMembers[uint64(view)%uint64(len(w.oldMembers))]
+		}
+	}
 	if s.Sender == "wrong" {
-		for d := hotstuff.ID(1); d < c03N; d++ {
-			c := (sender+d-1)%c03N + 1
-			if c != c03Leader(view) && c != w.self {
+		for _, c := range w.members {
+			if c != w.leaderOf(view) && c != w.self {
 				sender = c
-				break
+				if s.Abs || uint64(c)%256 == uint64(w.leaderOf(view))%256 {
+					break // prefer an id that agrees with the leader's in its low bits
+				}
 			}
 		}
 	}
 	proposer := sender
 	if s.Proposer == "other" {
-		proposer = sender%c03N + 1
+		for _, c := range w.members {
+			if c != sender {
+				proposer = c
+			}
+		}
 	}
 	b := w.newBlock(parent, qc, view, proposer)
 	if uint64(view) < 1<<32 {
@@ -630,10 +874,17 @@ func (w *c03World) craft(s c03Stim, cur hotstuff.View) hotstuff.ProposeMsg {
 	}
 	msg := hotstuff.ProposeMsg{ID: sender, Block: b}
 	if s.Agg != "" {
-		k := 3
+		k := w.quorumNow()
 		aqc := qc
 		if s.Agg == "subquorum" {
-			k = 2
+			k--
+		}
+		if s.Agg == "genuine" {
+			// the aggregate is honest: the timeouts carry the genuine certificate of the block that the
+			// proposal's own QC names, whatever was done to that QC
+			if cb, ok := w.known[qc.BlockHash()]; ok && w.certifiable(cb) {
+				aqc = w.makeQC(cb, "genuine")
+			}
 		}
 		if s.Agg == "mismatch" {
 			aqc = w.makeQC(gen, "genuine")
@@ -654,10 +905,10 @@ func (w *c03World) craft(s c03Stim, cur hotstuff.View) hotstuff.ProposeMsg {
 		if err != nil {
 			w.t.Fatal(err)
 		}
-		ai, _ := w.qcInfo(aqc)
-		// ground truth of the aggregate part of VerifyAnyQC: a quorum signed timeouts carrying aqc,
-		// aqc itself is valid (it is the only and hence highest QC), and it is the block's QC
-		w.aggs[&a] = k >= 3 && ai.ok && qc.Equals(aqc)
+		// ground truth of the aggregate part of VerifyAnyQC (evaluated when the proposal is handled): a
+		// quorum signed timeouts carrying aqc, aqc itself is valid (it is the only and hence highest
+		// QC), and it is the block's QC
+		w.aggs[&a] = c03AggInfo{nsig: k, qc: aqc, same: qc.Equals(aqc)}
 		msg.AggregateQC = &a
 	}
 	return msg
@@ -683,7 +934,7 @@ type c03Prop struct {
 func (w *c03World) describe(p hotstuff.ProposeMsg, inv *c03Inv) c03Prop {
 	b := p.Block
 	qc := b.QuorumCert()
-	info, known := w.qcInfo(qc)
+	info, known := w.qcInfoAt(qc, inv.quorum)
 	if !known {
 		w.notes = append(w.notes, "certificate without ground truth in proposal for view "+fmt.Sprint(b.View()))
 	}
@@ -691,8 +942,10 @@ func (w *c03World) describe(p hotstuff.ProposeMsg, inv *c03Inv) c03Prop {
 		QCHash: w.id(qc.BlockHash()), QCView: uint64(qc.View()), QCOk: info.ok, HaveCert: info.haveBlock,
 		CertView: uint64(info.blockView), Rule: true, AggOk: true, QCKind: info.kind}
 	if w.agg && p.AggregateQC != nil {
-		ok, have := w.aggs[p.AggregateQC]
-		d.AggOk = ok || !have
+		if a, have := w.aggs[p.AggregateQC]; have {
+			ai, _ := w.qcInfoAt(a.qc, inv.quorum)
+			d.AggOk = a.nsig >= inv.quorum && ai.ok && a.same
+		}
 	}
 	for _, rc := range inv.rules {
 		if rc.hash == b.Hash() {
@@ -768,6 +1021,7 @@ type c03Run struct {
 	Ruleset     string       `json:"ruleset"`
 	Crypto      string       `json:"crypto"`
 	Self        uint64       `json:"self"`
+	Config      c03Cfg       `json:"config"`
 	Stimuli     []c03Stim    `json:"stimuli"`
 	Invocations []c03InvMeta `json:"invocations"`
 	Fingerprint string       `json:"fingerprint,omitempty"`
@@ -776,7 +1030,7 @@ type c03Run struct {
 // finish turns the recorded run into a kernel case and evaluates the property's oracle.
 func (w *c03World) finish(v *verifOut, st *verifStream, stimuli []c03Stim, stream string) {
 	w.close()
-	run := c03Run{Ruleset: w.ruleName, Crypto: w.cryptoNm, Self: uint64(w.self), Stimuli: stimuli}
+	run := c03Run{Ruleset: w.ruleName, Crypto: w.cryptoNm, Self: uint64(w.self), Config: w.conf, Stimuli: stimuli}
 	var obs []string
 	type signed struct {
 		s   c03Sig
@@ -850,8 +1104,8 @@ func (w *c03World) finish(v *verifOut, st *verifStream, stimuli []c03Stim, strea
 				continue
 			}
 			where := fmt.Sprintf("replica %d (%s) voted for block %d of view %d sent by replica %d", w.self, w.ruleName, d.Hash, d.View, d.Sender)
-			if hotstuff.ID(d.Sender) != c03Leader(hotstuff.View(d.View)) {
-				fail("vote:not-from-leader", where+fmt.Sprintf(", but the leader of view %d is replica %d", d.View, c03Leader(hotstuff.View(d.View))))
+			if ld := inv.leaderAt(d.View); d.Sender != ld {
+				fail("vote:not-from-leader", where+fmt.Sprintf(", but the rotation names replica %d leader of view %d at that moment", ld, d.View))
 			}
 			if !d.QCOk || !d.AggOk {
 				fail("vote:invalid-certificate", where+fmt.Sprintf(" whose certificate (%s) is not valid", d.QCKind))
@@ -864,7 +1118,11 @@ func (w *c03World) finish(v *verifOut, st *verifStream, stimuli []c03Stim, strea
 			}
 		}
 		run.Invocations = append(run.Invocations, m)
-		obs = append(obs, fmt.Sprintf("(%s, %s, %s)", ev, gList(ss), gN(uint64(inv.viewAfter))))
+		var tbl []string
+		for _, e := range inv.leaders {
+			tbl = append(tbl, fmt.Sprintf("(%s, %s)", gN(e[0]), gN(e[1])))
+		}
+		obs = append(obs, fmt.Sprintf("(%s, %s, %s, %s, %s)", gList(tbl), ev, gList(ss), gN(uint64(inv.viewAfter)), gN(uint64(inv.lvAfter))))
 	}
 	if len(w.stray) > 0 {
 		fail("sign:outside-handler", fmt.Sprintf("%d signature(s) made outside any handler invocation", len(w.stray)))
@@ -906,10 +1164,10 @@ func (w *c03World) finish(v *verifOut, st *verifStream, stimuli []c03Stim, strea
 	if len(fails) == 0 {
 		v.Oracle(true, "", "", nil)
 	}
-	term := fmt.Sprintf("(%s, %s, %s, %s)", gN(c03N), gN(uint64(w.self)), gBool(w.agg), gList(obs))
+	term := fmt.Sprintf("(%s, %s, %s)", gN(uint64(w.self)), gBool(w.agg), gList(obs))
 	v.Case(st, term, run)
 	var key strings.Builder
-	fmt.Fprintf(&key, "%s/%s/%d", w.ruleName, w.cryptoNm, w.self)
+	key.WriteString(w.conf.String())
 	for _, s := range stimuli {
 		key.WriteString("|" + s.String())
 	}
@@ -949,16 +1207,23 @@ func (w *c03World) finish(v *verifOut, st *verifStream, stimuli []c03Stim, strea
 }
 
 func c03RunOne(t *testing.T, v *verifOut, st *verifStream, stream, ruleName, cryptoName string, self hotstuff.ID, stimuli []c03Stim) {
+	conf := c03Std(ruleName, self)
+	conf.Crypto = cryptoName
+	c03RunCfg(t, v, st, stream, conf, stimuli)
+}
+
+func c03RunCfg(t *testing.T, v *verifOut, st *verifStream, stream string, conf c03Cfg, stimuli []c03Stim) {
 	if c03Aborted {
 		return
 	}
-	w := c03NewWorld(t, ruleName, cryptoName, self)
+	ruleName, cryptoName, self := conf.Rule, conf.Crypto, conf.self()
+	w := c03NewWorld(t, conf)
 	for i, s := range stimuli {
 		p := w.apply(s)
 		if p == nil {
 			continue
 		}
-		r := c03Run{Ruleset: ruleName, Crypto: cryptoName, Self: uint64(self), Stimuli: stimuli[:i+1]}
+		r := c03Run{Ruleset: ruleName, Crypto: cryptoName, Self: uint64(self), Config: conf, Stimuli: stimuli[:i+1]}
 		if _, hung := p.(c03Hung); hung {
 			// the replica's event loop is stuck for good; nothing more can be run in this process
 			c03Aborted = true
@@ -1022,7 +1287,7 @@ func TestVerifC03(t *testing.T) {
 	kinds := []string{"genuine", "subquorum", "unknown"}
 	if v.Thorough() {
 		offs = []int{-2, -1, 0, 1, 2, 10, 11}
-		kinds = []string{"genuine", "subquorum", "forged", "unknown"}
+		kinds = []string{"genuine", "subquorum", "forged", "relabelled", "unknown"}
 	}
 	targets := []string{"tip", "older", "above"}
 	parents := []string{"qc", "other"}
@@ -1057,45 +1322,96 @@ func TestVerifC03(t *testing.T) {
 	// same, so the view must stay closed for an equivocating second block, for a retransmission
 	// and for older views, in every prepared state
 	sf := v.Stream("sendfail", "mismatches", 100)
-	for _, rn := range c03Rulesets {
-		agg := rn == rules.NameFastHotStuff
-		pre := c03Prefixes(agg)
+	for _, ra := range c03RuleAggs {
+		pre := c03Prefixes(ra.agg)
 		for _, self := range []hotstuff.ID{1, 3} {
+			conf := c03Std(ra.rule, self)
+			conf.Agg = ra.agg
 			for _, pn := range prefixNames {
-				for _, tail := range c03SendFailTails(agg) {
+				for _, tail := range c03SendFailTails(ra.agg) {
 					seq := append(append([]c03Stim{}, pre[pn]...), tail...)
-					c03RunOne(t, v, sf, "sendfail", rn, crypto.NameECDSA, self, seq)
+					c03RunCfg(t, v, sf, "sendfail", conf, seq)
+					if self == 1 && (v.Thorough() || pn == "fresh" || pn == "voted" || pn == "three-rounds") {
+						// the same with the communication module failing before anything is sent
+						cs := append([]c03Stim{}, seq...)
+						for i := range cs {
+							cs[i].FailSend, cs[i].FailComm = false, cs[i].FailSend
+						}
+						c03RunCfg(t, v, sf, "sendfail", conf, cs)
+					}
 				}
 			}
 		}
 	}
 	fmt.Fprintf(os.Stderr, "C03: send-failure stream done after %.1fs\n", time.Since(t0).Seconds())
 
+	if len(c03Rulesets) == 1 {
+		var keep []c03RuleAgg
+		for _, ra := range c03RuleAggs {
+			if ra.rule == c03Rulesets[0] {
+				keep = append(keep, ra)
+			}
+		}
+		c03RuleAggs = keep
+	}
 	// 2. seeded random schedules
 	rnd := v.Stream("random", "mismatches", 200)
 	nRandom := v.Pick(450, 9000)
 	for i := 0; i < nRandom; i++ {
-		rn := c03Rulesets[v.rng.Intn(len(c03Rulesets))]
-		self := hotstuff.ID(1 + v.rng.Intn(c03N))
-		cn := crypto.NameECDSA
+		ra := c03RuleAggs[v.rng.Intn(len(c03RuleAggs))]
+		if len(c03Rulesets) == 1 {
+			ra = c03RuleAgg{c03Rulesets[0], c03Rulesets[0] == rules.NameFastHotStuff || v.rng.Intn(2) == 0}
+		}
+		set := c03IDSets[0]
+		if v.rng.Intn(2) == 0 {
+			set = c03IDSets[v.rng.Intn(len(c03IDSets))]
+		}
+		conf := c03Cfg{Rule: ra.rule, Agg: ra.agg, Crypto: crypto.NameECDSA, IDs: set.ids, SelfIdx: v.rng.Intn(len(set.ids)),
+			Rotation: set.rots[v.rng.Intn(len(set.rots))]}
 		if v.rng.Intn(4) == 0 {
-			cn = crypto.NameEDDSA
+			conf.Crypto = crypto.NameEDDSA
+		}
+		if v.rng.Intn(3) == 0 {
+			conf.Joiner = set.joiner
 		}
 		n := 6 + v.rng.Intn(22)
 		var seq []c03Stim
 		for j := 0; j < n; j++ {
-			seq = append(seq, c03RandomStim(v, rn == rules.NameFastHotStuff))
+			seq = append(seq, c03RandomStim(v, ra.agg))
 		}
-		c03RunOne(t, v, rnd, "random", rn, cn, self, seq)
+		if conf.Joiner != 0 {
+			seq[v.rng.Intn(len(seq))] = c03Stim{Kind: "grow"}
+		}
+		c03RunCfg(t, v, rnd, "random", conf, seq)
 	}
 
 	fmt.Fprintf(os.Stderr, "C03: random stream done after %.1fs\n", time.Since(t0).Seconds())
 	// 3. malformed and boundary inputs
 	bd := v.Stream("boundary", "mismatches", 200)
-	for _, rn := range c03Rulesets {
+	for _, ra := range c03RuleAggs {
 		for _, self := range []hotstuff.ID{1, 2, 3} {
-			for _, seq := range c03Boundary(rn == rules.NameFastHotStuff) {
-				c03RunOne(t, v, bd, "boundary", rn, crypto.NameECDSA, self, seq)
+			conf := c03Std(ra.rule, self)
+			conf.Agg = ra.agg
+			for _, seq := range c03Boundary(ra.agg) {
+				c03RunCfg(t, v, bd, "boundary", conf, seq)
+			}
+		}
+	}
+	fmt.Fprintf(os.Stderr, "C03: boundary stream done after %.1fs\n", time.Since(t0).Seconds())
+
+	// 4. configuration: replica id sets (large, non-contiguous, agreeing in their low bits), leader
+	// rotations, both timeout rules under every ruleset, and a replica joining the configuration
+	// after voter, synchronizer and rotation were created (leaders and the quorum size change)
+	cs := v.Stream("config", "mismatches", 150)
+	for _, set := range c03IDSets {
+		for _, rot := range set.rots {
+			for _, ra := range c03RuleAggs {
+				for _, si := range []int{0, 2} {
+					conf := c03Cfg{Rule: ra.rule, Agg: ra.agg, Crypto: crypto.NameECDSA, IDs: set.ids, SelfIdx: si, Rotation: rot, Joiner: set.joiner}
+					for _, seq := range c03ConfigSeqs(ra.agg) {
+						c03RunCfg(t, v, cs, "config", conf, seq)
+					}
+				}
 			}
 		}
 	}
@@ -1105,8 +1421,102 @@ func TestVerifC03(t *testing.T) {
 
 func c03RandomStim(v *verifOut, agg bool) c03Stim {
 	s := c03RandomStim0(v, agg)
-	s.FailSend = s.Kind != "timeout" && v.rng.Intn(5) == 0
+	switch v.rng.Intn(8) {
+	case 0, 1:
+		s.FailSend = s.Kind != "timeout"
+	case 2:
+		s.FailComm = s.Kind != "timeout"
+	}
+	if s.Kind == "propose" && s.Sender == "leader" && v.rng.Intn(8) == 0 {
+		s.Sender = "stale-leader"
+	}
 	return s
+}
+
+type c03RuleAgg struct {
+	rule string
+	agg  bool // aggregate timeout rule (RuntimeConfig.HasAggregateQC)
+}
+
+var c03RuleAggs = []c03RuleAgg{
+	{rules.NameChainedHotStuff, false}, {rules.NameChainedHotStuff, true},
+	{rules.NameSimpleHotStuff, false}, {rules.NameSimpleHotStuff, true},
+	{rules.NameFastHotStuff, true},
+}
+
+var c03IDSets = []struct {
+	ids    []hotstuff.ID
+	joiner hotstuff.ID
+	rots   []string
+}{
+	{[]hotstuff.ID{1, 2, 3, 4}, 5, []string{"round-robin", "fixed", "table"}},
+	// all ids agree in their low 8 bits
+	{[]hotstuff.ID{3, 259, 65539, 16777219}, 515, []string{"table", "fixed"}},
+	// large ids at type boundaries
+	{[]hotstuff.ID{2147483653, 4294967295, 32768, 65536}, 2147483648, []string{"table", "fixed"}},
+	// 7 / 65543 and 300 / 65836 agree in their low 16 bits
+	{[]hotstuff.ID{65543, 300, 70000, 7}, 65836, []string{"table"}},
+}
+
+// c03ConfigSeqs: what every configuration is put through.
+func c03ConfigSeqs(agg bool) [][]c03Stim {
+	tc := c03Stim{Kind: "tc", K: 3}
+	to := c03Stim{Kind: "timeout"}
+	rp := c03Stim{Kind: "replay"}
+	grow := c03Stim{Kind: "grow"}
+	h := c03Honest
+	wrong := c03Stim{Kind: "propose", Sender: "wrong", QCTarget: "tip", QCKind: "genuine", Parent: "qc"}
+	stale := func(off int) c03Stim { s := h(off); s.Sender = "stale-leader"; return s }
+	sub := func(off int) c03Stim { s := h(off); s.QCKind = "subquorum"; return s }
+	next := []c03Stim{h(1)}
+	if agg {
+		next = []c03Stim{tc, h(0)}
+	}
+	cat := func(parts ...[]c03Stim) []c03Stim {
+		var r []c03Stim
+		for _, p := range parts {
+			r = append(r, p...)
+		}
+		return r
+	}
+	one := func(xs ...c03Stim) []c03Stim { return xs }
+	base := [][]c03Stim{
+		// plain rounds, equivocation, old views, replays; wrong senders whose ids resemble the leader's
+		cat(one(wrong, h(0)), next, next, one(wrong, h(0), h(-1), rp, to, h(0))),
+		cat(one(h(0), wrong, to, tc, wrong, h(0)), next, one(sub(1), sub(0), h(0))),
+		// views the replica leads itself, reached by TCs
+		one(tc, tc, tc, tc, h(0), tc, h(-1), h(0), h(0)),
+		// the membership grows: the leader of a view changes, the quorum grows
+		cat(one(h(0), grow), next, next, one(h(0), stale(0), stale(1), h(1))),
+		cat(one(grow, stale(0), h(0), stale(0), to, tc, stale(0), h(0)), next),
+		one(h(1), stale(1), grow, tc, stale(0), h(0), rp),                   // delayed before, handled after the growth
+		one(h(0), tc, grow, stale(0), sub(0), h(0), rp, tc, stale(0), h(0)), // old-quorum certificates after the growth
+		cat(one(tc, grow, tc, tc, stale(0), h(0), tc, stale(0), h(0), tc, stale(0), h(0)), next),
+	}
+	twin := func(agg string) c03Stim {
+		return c03Stim{Kind: "propose", Sender: "leader", QCTarget: "tip", QCKind: "relabelled", Parent: "qc", Agg: agg}
+	}
+	if agg {
+		base = append(base, one(h(0), to, tc, twin("genuine"), h(0), tc, twin("valid"), twin("genuine"), twin(""), h(0)))
+	} else {
+		base = append(base, cat(one(h(0)), next, one(twin(""), twin("genuine"), h(0))))
+	}
+	// a proposal that fails only the leader test is seen for a view, THEN the membership grows and
+	// the view gets another leader: whoever led it before must not be accepted any more (an answer
+	// of the rotation remembered per view would be stale); at several depths, because which views
+	// change hands depends on the ids and the rotation
+	seqs := base
+	for depth := 1; depth <= 6; depth++ {
+		var q []c03Stim
+		for i := 0; i < depth; i++ {
+			q = append(q, tc)
+		}
+		// (the refused block of the wrong sender is the tip by now: build on the one below it)
+		so, ho := stale(0), h(0)
+		so.QCTarget, ho.QCTarget = "older", "older"
+		seqs = append(seqs, cat(q, one(wrong, grow, so, wrong, ho, rp)))
+	}
+	return seqs
 }
 
 func c03RandomStim0(v *verifOut, agg bool) c03Stim {
@@ -1122,11 +1532,11 @@ func c03RandomStim0(v *verifOut, agg bool) c03Stim {
 		s := c03Stim{Kind: "propose", ViewOff: []int{-3, -2, -1, 0, 0, 0, 1, 1, 2, 3, 9, 10, 11, 12}[v.rng.Intn(14)],
 			Sender:   pick("leader", "leader", "leader", "wrong"),
 			QCTarget: pick("tip", "tip", "older", "genesis", "above"),
-			QCKind:   pick("genuine", "genuine", "genuine", "subquorum", "forged", "unknown"),
+			QCKind:   pick("genuine", "genuine", "genuine", "subquorum", "forged", "unknown", "relabelled"),
 			Parent:   pick("qc", "qc", "other", "random"),
 			Proposer: pick("", "", "", "other")}
 		if agg {
-			s.Agg = pick("", "", "valid", "valid", "mismatch", "subquorum")
+			s.Agg = pick("", "", "valid", "valid", "genuine", "genuine", "mismatch", "subquorum")
 		} else if v.rng.Intn(10) == 0 {
 			s.Agg = pick("valid", "subquorum")
 		}
@@ -1218,21 +1628,37 @@ func c03Boundary(agg bool) [][]c03Stim {
 		{tc, tc, tc, bad(-1, "above", "qc")},
 		{p(0), tc, tc, tc, bad(-1, "above", "qc"), bad(0, "above", "qc"), bad(0, "above", "other")},
 		{tc, tc, bad(0, "above", "qc"), tc, bad(0, "above", "qc")},
+		// delayed proposals (DelayUntil a view change): duplicates of the delayed message, two different
+		// blocks for the future view, a retransmission after it was handled, a timer in between
+		{p(1), {Kind: "replay"}, {Kind: "replay"}, tc, {Kind: "replay"}, p(0)},
+		{p(1), p(1), p(1), tc, p(0), {Kind: "replay"}},
+		{p(2), {Kind: "replay"}, p(1), tc, tc, {Kind: "replay"}, p(-1)},
+		{p(1), {Kind: "replay"}, to, tc, {Kind: "replay"}, to, p(0)},
+		{p(1), to, to, tc, to, {Kind: "replay"}},
+		{p(10), {Kind: "replay"}, p(9), tc, tc, tc, tc, tc, tc, tc, tc, tc, {Kind: "replay"}, tc, {Kind: "replay"}},
 		// equivocation: two, three blocks for one view; replays
 		{p(0), p(0), p(0), {Kind: "replay"}, tc, p(-1), p(0), p(0)},
 		// block whose proposer field is not the sender
 		{{Kind: "propose", Sender: "leader", QCTarget: "tip", QCKind: "genuine", Parent: "qc", Proposer: "other"}, p(1)},
 		{{Kind: "propose", Sender: "wrong", QCTarget: "tip", QCKind: "genuine", Parent: "qc", Proposer: "other"}, p(0)},
 	}
-	aggKinds := []string{"valid", "mismatch", "subquorum"}
+	aggKinds := []string{"valid", "genuine", "mismatch", "subquorum"}
+	if !agg {
+		aggKinds = []string{"genuine"} // without aggregate QCs configured the attachment is ignored
+	}
 	for _, a := range aggKinds {
-		for _, k := range []string{"genuine", "subquorum"} {
+		for _, k := range []string{"genuine", "subquorum", "relabelled"} {
 			for _, par := range []string{"qc", "other"} {
 				x := c03Stim{Kind: "propose", Sender: "leader", QCTarget: "tip", QCKind: k, Parent: par, Agg: a}
 				seqs = append(seqs, []c03Stim{x}, []c03Stim{p(0), tc, x, tc, p(0)})
+				if par == "qc" {
+					// after a view that timed out, and with an older certified block
+					xo := x
+					xo.QCTarget = "older"
+					seqs = append(seqs, []c03Stim{p(0), to, tc, x, p(0)}, []c03Stim{p(0), tc, p(0), to, tc, xo, x, tc, p(0)})
+				}
 			}
 		}
 	}
-	_ = agg
 	return seqs
 }
